@@ -184,11 +184,22 @@ func wirePfx(r *vlib.R) string {
 // forwarder chains use a fresh id each time: the upstream's answers are cached across pipes only by
 // name, and a cold cache is what the model of `forwardOps` assumes
 var fwdChainID = 1000
+var rhoID = 0
 
 func genPipeCase(r *vlib.R, emit func(string), dflt string) int {
 	mode := vlib.Pick(r, []string{"enforce", "enforce", "enforce", "shadow", "off", "-"})
 	raw := genCaps(r, true)
 	fo := r.Chance(1, 3)
+	if !fo && r.Chance(1, 6) {
+		// the cache's internal queries answered by an executor that does not chase: one chase level on its own
+		emit(fmt.Sprintf("pipe new %s %s %s flatq", vlib.Pick(r, []string{"shadow", "off", "-", "shadow"}), u32csv(raw), dflt))
+		n := r.Range(3, 7)
+		for i := 0; i < n; i++ {
+			rhoID++
+			emit(fmt.Sprintf("pipe rho %d %d %d %s %s10.%d.0.%d:40000", rhoID, r.Range(0, 9), r.Range(1, 14), vlib.B(r.Chance(2, 3)), wirePfx(r), r.Intn(200), 1+r.Intn(200)))
+		}
+		return n + 1
+	}
 	if !fo && r.Chance(1, 4) {
 		// forwarder mode: aliases answered bare by the upstream, every hop one forwarded query
 		emit(fmt.Sprintf("pipe new %s %s %s forwarder", mode, u32csv(raw), dflt))
@@ -241,6 +252,12 @@ func genPipeCase(r *vlib.R, emit func(string), dflt string) int {
 		}
 		if nd > 40 {
 			nd = r.Range(0, 3)
+		}
+		if !fo && r.Chance(1, 6) {
+			// a rho-shaped alias loop: a tail leading into a cycle that never returns to the queried name
+			rhoID++
+			emit(fmt.Sprintf("pipe rho %d %d %d %s %s10.%d.0.%d:40000", rhoID, r.Range(0, 6), r.Range(1, 12), vlib.B(r.Chance(2, 3)), wirePfx(r), r.Intn(200), 1+r.Intn(200)))
+			continue
 		}
 		if !fo && r.Chance(1, 6) {
 			// work through the request's context after the request has completed
